@@ -666,8 +666,10 @@ def observer(tier, seed):
         res["checker_errors"].append("C19 harness guard crashed: " + traceback.format_exc()[-600:])
     res["explanation"] = (
         "contract-based deductive verification of the clamp functions, location_to_key, Variator.from_masters / instance_at, process_rules_swaps, "
-        "collect_info/kerning/glyph_masters and the involution lemmas of the abstract swap; swap_glyph_names and generate_instance are outside pyvc's "
-        f"subset and are covered by a BOUNDED observer on real objects ({stats['instances']} instances, {stats['values']} compared numbers)"
+        "collect_info/kerning/glyph_masters, Instantiator.generate_glyph_instance (cache invariant, master / blend, frame), replace_source_layers, "
+        "swap_glyph_names (outline / width / anchors exchanged, kerning and groups conjugated) and the involution lemmas of the abstract swap; "
+        "generate_instance as a whole and the component re-mapping of swap_glyph_names are covered by a BOUNDED observer on real objects "
+        f"({stats['instances']} instances, {stats['values']} compared numbers)"
     )
     res["trusted"] += [
         "fontMath arithmetic and extract*/round (MathGlyph, MathInfo, MathKerning)",
